@@ -67,10 +67,12 @@ def expr_for(outcome, kinds, role, i):
         if k not in kinds:
             raise KeyError(f"no expression known to fail with a {k} error")
         return kinds[k]
-    if outcome == "truthy":
-        return "y == 5"
-    if outcome == "falsy":
-        return "y != 5"
+    if outcome.startswith("truthy"):
+        k = outcome.split(":")[1] if ":" in outcome else "Bool"
+        return {"Int": "y", "UInt": "5u", "Float": "1.5", "String": "'s'", "Bytes": "b'a'", "List": "[1]", "Map": "{'a': 1}", "Type": "int"}.get(k, "y == 5")
+    if outcome.startswith("falsy"):
+        k = outcome.split(":")[1] if ":" in outcome else "Bool"
+        return {"Int": "y - 5", "UInt": "0u", "Float": "0.0", "String": "''", "Bytes": "b''", "List": "[]", "Map": "{}", "Null": "null"}.get(k, "y != 5")
     if outcome == "null":
         return "null"
     if outcome == "value":
@@ -191,7 +193,7 @@ def concrete_macro(sc, kinds):
             if o.startswith("err:"):
                 exp = ("err", o[4:])
                 break
-            t = o == "truthy"
+            t = o.startswith("truthy")
             if m == "all" and not t:
                 exp = ("ok", "Bool(false)")
                 break
@@ -278,6 +280,68 @@ def replay_vm(exe, failures):
     return {"status": "not_reproduced" if ran else "unavailable", "summary": "VM and reference agreed natively on every concrete instance" if ran else "no scenario could be made concrete", "attempts": tried}
 
 
+def replay_value(exe, failures):
+    tried = []
+    for f in failures:
+        sc = f.get("scenario")
+        if not sc or sc.get("unavailable") or sc.get("kind") != "value":
+            tried.append({"label": f["label"], "skipped": (sc or {}).get("unavailable", "no scenario")})
+            continue
+        out, why = run(exe, "vm", [sc["request"]])
+        if out is None:
+            tried.append({"label": f["label"], "skipped": why})
+            continue
+        got, exp = out[0].get("vm", out[0]), sc["expected"]
+        rec = {"label": f["label"], "request": sc["request"], "expected": exp, "native": got}
+        tried.append(rec)
+        ok = ("err" in got) if "anyerr" in exp else (got.get("ok") == exp["ok"] if "ok" in exp else got.get("err") == exp["err"])
+        if "panic" in got or not ok:
+            rec["reproduced"] = True
+            return {"status": "reproduced", "summary": f"{json.dumps(sc['request']['instrs'])[:300]} gave {got}, the property demands {exp}", "attempts": tried}
+    ran = any("native" in t for t in tried)
+    return {"status": "not_reproduced" if ran else "unavailable", "summary": "native results agree with the property on every concrete instance" if ran else "no scenario could be made concrete", "attempts": tried}
+
+
+def replay_resolve(exe, failures):
+    tried = []
+    for f in failures:
+        sc = f.get("scenario")
+        if not sc or sc.get("unavailable") or sc.get("kind") != "resolve":
+            tried.append({"label": f["label"], "skipped": (sc or {}).get("unavailable", "no scenario")})
+            continue
+        out, why = run(exe, "resolve", [sc["request"]])
+        if out is None:
+            tried.append({"label": f["label"], "skipped": why})
+            continue
+        got = out[0]
+        rec = {"label": f["label"], "request": sc["request"], "expected": sc["expected"], "native": got}
+        tried.append(rec)
+        if "panic" in got or got.get("resolved") != sc["expected"]:
+            rec["reproduced"] = True
+            return {"status": "reproduced", "summary": f"resolve({json.dumps(sc['request']['points'])}) gave {got}, the property demands {sc['expected']}", "attempts": tried}
+    ran = any("native" in t for t in tried)
+    return {"status": "not_reproduced" if ran else "unavailable", "summary": "native results agree" if ran else "no scenario could be made concrete", "attempts": tried}
+
+
+def replay_depth(exe, failures):
+    """the symbolic run found an exit path of run_raw that does not release the call-depth counter:
+    confirm with evaluations whose nested runs take that kind of exit more often than the limit"""
+    miss = ", ".join(f"m{i}" for i in range(40))
+    nulls = ", ".join("null" for _ in range(40))
+    progs = [["leak_on_error", f"coalesce({miss}, 7)"], ["leak_on_value", f"coalesce({nulls}, 7)"],
+             ["leak_in_has", "[" + ", ".join(f"has(m{i})" for i in range(40)) + "].size()"]]
+    out, why = run(exe, "eval", [{"programs": progs, "run": [p[0] for p in progs], "params": {}}])
+    if out is None:
+        return {"status": "unavailable", "summary": why}
+    res = out[0].get("results", [])
+    want = ["Int(7)", "Int(7)", "UInt(40)"]
+    rec = {"programs": progs, "native": res, "expected": want}
+    bad = [(p[0], r) for p, r, w in zip(progs, res, want) if r.get("ok") != w and not (w == "UInt(40)" and r.get("ok") in ("UInt(40)", "Int(40)"))]
+    if bad:
+        return {"status": "reproduced", "summary": f"{bad[0][0]}: 40 sibling evaluations exhaust the depth budget: {bad[0][1]}", "attempts": [rec]}
+    return {"status": "not_reproduced", "summary": "sibling evaluations did not consume the depth budget natively", "attempts": [rec]}
+
+
 def main():
     rec_path, out_path, repo, kani_dir, cache = sys.argv[1:6]
     rec = json.load(open(rec_path))
@@ -286,8 +350,18 @@ def main():
         json.dump({"status": "unavailable", "summary": "native build failed: " + why[-300:]}, open(out_path, "w"))
         return
     fails = rec.get("failures", [])
-    if any((f.get("scenario") or {}).get("kind") == "vm" for f in fails):
+    r = None
+    if any((f.get("scenario") or {}).get("kind") == "depth_probe" for f in fails):
+        r = replay_depth(exe, fails)
+        if r["status"] != "reproduced" and any((f.get("scenario") or {}).get("kind") == "vm" for f in fails):
+            r2 = replay_vm(exe, fails)
+            r = r2 if r2["status"] == "reproduced" else r
+    elif any((f.get("scenario") or {}).get("kind") == "vm" for f in fails):
         r = replay_vm(exe, fails)
+    elif any((f.get("scenario") or {}).get("kind") == "resolve" for f in fails):
+        r = replay_resolve(exe, fails)
+    elif any((f.get("scenario") or {}).get("kind") == "value" for f in fails):
+        r = replay_value(exe, fails)
     else:
         r = replay_macros(exe, fails)
     json.dump(r, open(out_path, "w"), indent=1)
